@@ -108,7 +108,13 @@ func genC15Request(r *Rng) c15req {
 		base = Pick(r, []string{"application/json-patch+json", "application/jsonl", "application/json-seq", "application/json5",
 			"application/x-www-form-urlencoded-v2", "application/xml", "application/x-json", "text/json", "application/ld+json"})
 	}
-	mt := base
+	if r.P(0.08) {
+		// the same media types in another case or padded (RFC 9110 compares them case-insensitively; net/http's
+		// ParseForm does too): whichever reading the library takes, it must take it as a whole
+		base = Pick(r, []string{"Application/JSON", "application/JSON", "APPLICATION/X-WWW-FORM-URLENCODED", "Application/X-WWW-Form-Urlencoded",
+			" application/json", "application/x-www-form-urlencoded ", " application/x-www-form-urlencoded"})
+	}
+	mt := strings.ToLower(strings.TrimSpace(base))
 	if base != "" {
 		base += Pick(r, []string{"", "", "; charset=utf-8", ";charset=utf-8", "; boundary=x"})
 	}
@@ -390,132 +396,144 @@ func runC15(x *X) *Violation {
 	if res.Panic != "" {
 		return &Violation{Class: "C15/panic src=" + io.dispatch(), Detail: desc + ": " + res.Panic}
 	}
-	src := io.dispatch()
-	body := io.Body
-	delivered := body
-	faultErr := false
-	if io.TruncAt > 0 && io.TruncAt-1 <= len(body) {
-		delivered = body[:io.TruncAt-1]
-		faultErr = io.Fault == "err" || io.Fault == "err_with_data"
-	}
-	if io.TruncAt > 0 && io.TruncAt-1 == len(body) && io.Fault == "eof" {
-		delivered = body
-	}
-	if io.NoBody {
-		// http.NoBody is not the scripted reader: it is empty and never fails
-		delivered, faultErr = "", false
-	}
-	class := "valid"
-	for _, c := range []string{"empty_obj", "non_object", "malformed", "empty"} {
-		if w.P("class_"+c) == 1 {
-			class = c
+	check := func(src, phase string) *Violation {
+		body := io.Body
+		delivered := body
+		faultErr := false
+		if io.TruncAt > 0 && io.TruncAt-1 <= len(body) {
+			delivered = body[:io.TruncAt-1]
+			faultErr = io.Fault == "err" || io.Fault == "err_with_data"
 		}
-	}
-	bodyParsed := io.Method == "POST" || io.Method == "PUT" || io.Method == "PATCH"
-	var expectFail string
-	var seen Val
-	switch src {
-	case "json":
-		n := completeJSONLen(body)
-		switch {
-		case class == "malformed" || class == "empty" || class == "non_object":
-			expectFail = "invalid_json"
-		case n < 0 || len(delivered) < n:
-			expectFail = "invalid_json"
+		if io.TruncAt > 0 && io.TruncAt-1 == len(body) && io.Fault == "eof" {
+			delivered = body
 		}
-		if class == "empty_obj" {
-			seen = VM()
-		} else {
-			seen = AsSeen("json", jRec)
+		if io.NoBody {
+			// http.NoBody is not the scripted reader: it is empty and never fails
+			delivered, faultErr = "", false
 		}
-	case "form":
-		q := VM()
-		if io.QueryIn != nil {
-			q = *io.QueryIn
-		}
-		if io.Query != "" {
-			// malformed query string: the form as a whole cannot be decoded, whatever the method
-			expectFail = "invalid_form"
-		} else if bodyParsed {
-			if faultErr {
-				expectFail = "invalid_form"
-			} else if class == "malformed" && delivered == body {
-				expectFail = "invalid_form"
-			} else if delivered != body || class == "malformed" || (class == "valid" && !isFormOf(root, fRec, body)) {
-				// a cleanly truncated or foreign body is just a different form: no oracle beyond "returns"
-				x.Probes["form_truncated_no_oracle"]++
-				return nil
+		class := "valid"
+		for _, c := range []string{"empty_obj", "non_object", "malformed", "empty"} {
+			if w.P("class_"+c) == 1 {
+				class = c
 			}
 		}
-		have := bodyParsed && class == "valid"
-		seen = seenFlat(root, mergeForm(root, fRec, q, have, io.QueryIn != nil), "form")
-	default:
-		if io.Query != "" {
-			x.Probes["malformed_query_no_oracle"]++
-			return nil // query source with a malformed query string: outside what the statement settles
-		}
-		q := VM()
-		if io.QueryIn != nil {
-			q = *io.QueryIn
-		}
-		seen = seenFlat(root, q, "query")
-	}
-	if fired || (io.QueryIn != nil && src != "query") {
-		x.NonTrivial = true
-	}
-	if expectFail != "" {
-		x.Probes["decode_failure"]++
-		if len(res.Issues) != 1 || res.Issues[0].Code != expectFail {
-			got := res.PCTs()
-			cls := "C15/undecodable-body-not-one-issue"
-			if len(res.Issues) == 0 {
-				cls = "C15/undecodable-body-accepted"
+		bodyParsed := io.Method == "POST" || io.Method == "PUT" || io.Method == "PATCH"
+		var expectFail string
+		var seen Val
+		switch src {
+		case "json":
+			n := completeJSONLen(body)
+			switch {
+			case class == "malformed" || class == "empty" || class == "non_object":
+				expectFail = "invalid_json"
+			case n < 0 || len(delivered) < n:
+				expectFail = "invalid_json"
 			}
-			return &Violation{Class: fmt.Sprintf("%s src=%s class=%s fault=%s", cls, src, class, io.Fault),
-				Detail: fmt.Sprintf("%s: want exactly one %s issue, got %v (dest %s)", desc, expectFail, got, res.Dest)}
+			if class == "empty_obj" {
+				seen = VM()
+			} else {
+				seen = AsSeen("json", jRec)
+			}
+		case "form":
+			q := VM()
+			if io.QueryIn != nil {
+				q = *io.QueryIn
+			}
+			if io.Query != "" {
+				// malformed query string: the form as a whole cannot be decoded, whatever the method
+				expectFail = "invalid_form"
+			} else if bodyParsed {
+				if faultErr {
+					expectFail = "invalid_form"
+				} else if class == "malformed" && delivered == body {
+					expectFail = "invalid_form"
+				} else if delivered != body || class == "malformed" || (class == "valid" && !isFormOf(root, fRec, body)) {
+					// a cleanly truncated or foreign body is just a different form: no oracle beyond "returns"
+					x.Probes["form_truncated_no_oracle"]++
+					return nil
+				}
+			}
+			have := bodyParsed && class == "valid"
+			seen = seenFlat(root, mergeForm(root, fRec, q, have, io.QueryIn != nil), "form")
+		default:
+			if io.Query != "" {
+				x.Probes["malformed_query_no_oracle"]++
+				return nil // query source with a malformed query string: outside what the statement settles
+			}
+			q := VM()
+			if io.QueryIn != nil {
+				q = *io.QueryIn
+			}
+			seen = seenFlat(root, q, "query")
 		}
-		if res.Issues[0].Path != "" || res.Issues[0].Key != "$root" {
-			return &Violation{Class: "C15/decode-issue-not-top-level src=" + src, Detail: fmt.Sprintf("%s: issue at path %q key %q", desc, res.Issues[0].Path, res.Issues[0].Key)}
+		if fired || (io.QueryIn != nil && src != "query") {
+			x.NonTrivial = true
 		}
-		if len(res.Calls) > 0 {
-			return &Violation{Class: "C15/schema-ran-after-decode-failure src=" + src, Detail: fmt.Sprintf("%s: %d schema callbacks ran", desc, len(res.Calls))}
+		if expectFail != "" {
+			x.Probes["decode_failure"]++
+			if len(res.Issues) != 1 || res.Issues[0].Code != expectFail {
+				got := res.PCTs()
+				cls := "C15/undecodable-body-not-one-issue"
+				if len(res.Issues) == 0 {
+					cls = "C15/undecodable-body-accepted"
+				}
+				return &Violation{Class: fmt.Sprintf("%s src=%s class=%s fault=%s", cls, src, class, io.Fault),
+					Detail: fmt.Sprintf("%s: want exactly one %s issue, got %v (dest %s)", desc, expectFail, got, res.Dest)}
+			}
+			if res.Issues[0].Path != "" || res.Issues[0].Key != "$root" {
+				return &Violation{Class: "C15/decode-issue-not-top-level src=" + src, Detail: fmt.Sprintf("%s: issue at path %q key %q", desc, res.Issues[0].Path, res.Issues[0].Key)}
+			}
+			if len(res.Calls) > 0 {
+				return &Violation{Class: "C15/schema-ran-after-decode-failure src=" + src, Detail: fmt.Sprintf("%s: %d schema callbacks ran", desc, len(res.Calls))}
+			}
+			want := CanonV(Populate(x.Built[0].Typ, Sentinel(x.Built[0].N)))
+			if res.Dest != want {
+				return &Violation{Class: "C15/destination-written-after-decode-failure src=" + src, Detail: fmt.Sprintf("%s: destination %s, was %s", desc, res.Dest, want)}
+			}
+			return nil
 		}
-		want := CanonV(Populate(x.Built[0].Typ, Sentinel(x.Built[0].N)))
-		if res.Dest != want {
-			return &Violation{Class: "C15/destination-written-after-decode-failure src=" + src, Detail: fmt.Sprintf("%s: destination %s, was %s", desc, res.Dest, want)}
+		if fired {
+			x.Probes["decode_ok_after_fault"]++
 		}
+		// the chosen source's record through the plain map front end
+		if ptrRoot && src == "json" && len(seen.M) == 0 {
+			// `{}` for a top-level optional struct is "absent" (pinned upstream by TestTopLevelOptionalStruct)
+			seen = VNil()
+		}
+		exp := Op{Kind: "parse", Schema: 0, Front: "map", Input: seen, Pre: op.Pre}
+		x.SetPhase(phase)
+		x.Dec.Benign[phase] = true
+		re := x.Exec("0:e", &exp)
+		var gotP, wantP []string
+		for _, i := range res.Issues {
+			gotP = append(gotP, i.PCT())
+		}
+		tag := src
+		if src == "json" && len(seen.M) == 0 {
+			// paths of an empty record are reported under schema keys (open finding F-TAGS, C10): compare by schema key here
+			tag = ""
+		}
+		for _, i := range re.Issues {
+			wantP = append(wantP, renameFirstSeg(root, i.Path, tag)+"|"+i.Code+"|"+i.Type)
+		}
+		if !sameStrings(gotP, wantP) || res.Dest != re.Dest {
+			return &Violation{Class: fmt.Sprintf("C15/wrong-source-or-result src=%s method=%s class=%s", src, methodClass(io.Method), class),
+				Detail: fmt.Sprintf("%s: documented source %s delivers %s => issues %v dest %s; got issues %v dest %s", desc, src, seen.String(), wantP, re.Dest, gotP, res.Dest)}
+		}
+		x.Probes["dispatch_checked_"+src]++
 		return nil
 	}
-	if fired {
-		x.Probes["decode_ok_after_fault"]++
+	src := io.dispatch()
+	v := check(src, "e/")
+	if alt := io.dispatchLenient(); v != nil && alt != src {
+		// a media type written in another case or with padding: the statement does not say whether it still names
+		// its source - either reading is accepted, a mixture of sources is not
+		x.Probes["ambiguous_media_type"]++
+		if v2 := check(alt, "e2/"); v2 == nil {
+			return nil
+		}
 	}
-	// the chosen source's record through the plain map front end
-	if ptrRoot && src == "json" && len(seen.M) == 0 {
-		// `{}` for a top-level optional struct is "absent" (pinned upstream by TestTopLevelOptionalStruct)
-		seen = VNil()
-	}
-	exp := Op{Kind: "parse", Schema: 0, Front: "map", Input: seen, Pre: op.Pre}
-	x.SetPhase("e/")
-	x.Dec.Benign["e/"] = true
-	re := x.Exec("0:e", &exp)
-	var gotP, wantP []string
-	for _, i := range res.Issues {
-		gotP = append(gotP, i.PCT())
-	}
-	tag := src
-	if src == "json" && len(seen.M) == 0 {
-		// paths of an empty record are reported under schema keys (open finding F-TAGS, C10): compare by schema key here
-		tag = ""
-	}
-	for _, i := range re.Issues {
-		wantP = append(wantP, renameFirstSeg(root, i.Path, tag)+"|"+i.Code+"|"+i.Type)
-	}
-	if !sameStrings(gotP, wantP) || res.Dest != re.Dest {
-		return &Violation{Class: fmt.Sprintf("C15/wrong-source-or-result src=%s method=%s class=%s", src, methodClass(io.Method), class),
-			Detail: fmt.Sprintf("%s: documented source %s delivers %s => issues %v dest %s; got issues %v dest %s", desc, src, seen.String(), wantP, re.Dest, gotP, res.Dest)}
-	}
-	x.Probes["dispatch_checked_"+src]++
-	return nil
+	return v
 }
 
 func methodClass(m string) string {
